@@ -1124,7 +1124,12 @@ class BaseResolver:
                 else:
                     ndots = self.ndots
                 for suffix in search_list:
-                    qnames_to_try.append(qname + suffix)
+                    try:
+                        qnames_to_try.append(qname + suffix)
+                    except dns.name.NameTooLong:
+                        # This combination is not a legal name, so it is not
+                        # a candidate; the others still are.
+                        pass
                 if len(qname) > ndots:
                     # The name has at least ndots dots, so we should try an
                     # absolute query first.
